@@ -103,6 +103,7 @@ type c19Item struct {
 	valid   bool   // valid JSON for the target
 	target  int    // 0 interface{}, 1 struct, 2 RawMessage, 3 []byte, 4 struct with a field whose UnmarshalJSON parks
 	overLim bool
+	cut     bool // the transport ends in the middle of this (fragmented) message
 	desc    string
 }
 
@@ -149,8 +150,14 @@ func runC19(r *Run) {
 			return
 		}
 		cs := &connState{rc: rc, limit: 32768}
-		if t.Pct(30) {
+		switch t.Weighted(5, 3, 2) {
+		case 1:
 			cs.limit = 200000
+			rc.C.SetReadLimit(cs.limit)
+		case 2:
+			// a small limit: most documents exceed it, the read fails after limit+1
+			// bytes have gone into the pooled buffer
+			cs.limit = 64
 			rc.C.SetReadLimit(cs.limit)
 		}
 		nItems := 1 + t.Draw(5)
@@ -218,11 +225,17 @@ func runC19(r *Run) {
 					it.doc = nil
 					it.desc = "empty-message"
 				}
-			} else if int64(len(it.doc)) > cs.limit {
+			}
+			// (a document that exceeds the limit fails with 1009 before anybody looks at its JSON)
+			if int64(len(it.doc)) > cs.limit {
 				it.overLim = true
 			}
+			if it.valid && !it.overLim && len(it.doc) >= 8 && t.Pct(12) {
+				it.cut = true
+				it.desc = "transport-cut-inside"
+			}
 			cs.items = append(cs.items, it)
-			if !it.valid || it.overLim {
+			if !it.valid || it.overLim || it.cut {
 				break
 			}
 		}
@@ -273,9 +286,20 @@ func runC19(r *Run) {
 		// the peer sends the documents, one text message each
 		var stream []byte
 		for _, it := range cs.items {
+			if it.cut {
+				// two fragments, the peer is gone after a few bytes of the second
+				h := len(it.doc) / 2
+				b := peer.Encode(MessageFrames(MsgSpec{Typ: wsref.OpText, Data: it.doc, Frags: []int{h, len(it.doc) - h}}, nil)...)
+				stream = append(stream, b[:len(b)-(len(it.doc)-h)/2-1]...)
+				continue
+			}
 			stream = append(stream, peer.Encode(MessageFrames(MsgSpec{Typ: wsref.OpText, Data: it.doc, Frags: SplitFrags(t, len(it.doc))}, nil)...)...)
 		}
 		peer.Inject(stream)
+		if cs.items[len(cs.items)-1].cut {
+			cs.rc.Raw.CloseWrite()
+			r.S.Count("probe.read-fails-with-bytes-in-the-pooled-buffer")
+		}
 		name := fmt.Sprintf("rd%d", ci)
 		r.S.Go(name, func() {
 			defer c.CloseNow()
@@ -301,6 +325,11 @@ func runC19(r *Run) {
 				err := wsjson.Read(bg, c, v)
 				sig := fmt.Sprintf("target=%d,valid=%v,over=%v", it.target, it.valid, it.overLim)
 				switch {
+				case it.cut:
+					if err == nil {
+						r.Violate("truncated-document-accepted", sig, "document %d was cut by the transport after %d of its bytes but wsjson.Read returned nil", i, len(it.doc)/2)
+					}
+					return
 				case it.overLim:
 					if err == nil {
 						r.Violate("over-limit-accepted", sig, "document %d of %d bytes exceeds the read limit %d but was decoded", i, len(it.doc), cs.limit)
@@ -404,7 +433,9 @@ func runC19(r *Run) {
 		}
 		last := cs.items[len(cs.items)-1]
 		readsOK := last.valid && !last.overLim
-		if readsOK {
+		if last.cut {
+			// (the transport ended: nothing is expected on the wire)
+		} else if readsOK {
 			var good []any
 			for _, v := range cs.writes {
 				if _, bad := v.(c19Unencodable); !bad {
